@@ -346,3 +346,7 @@ for _p in ('C01', 'C03', 'C04', 'C14', 'C15', 'C16', 'C20', 'C02', 'C07'):
     for _k, _v in ALL_TEXT.items():
         PROPS[_p]['rule_texts'].setdefault(_k, _v)
 PROPS['C02']['rules'] += [rules_table.rule_to_sparse]
+PROPS['C18']['rules'] += [X.rule_pad_agreement]
+PROPS['C11']['rules'] += [X.rule_one_to_many_count]
+for _k, _v in rules_extra.RULE_TEXT.items():
+    ALL_TEXT.setdefault(_k, ' '.join((_v or '').split()))
